@@ -12,12 +12,16 @@ HEADER = "\n".join([
 
 
 def q(p):
+    """[numerator, denominator] with the denominator a power of two (every double is) -> dyadic literal."""
     n, d = p
-    return "(%s # %d)%%bigQ" % (n if n >= 0 else "(%d)" % n, d)
+    k = d.bit_length() - 1
+    if d != 1 << k:
+        raise ValueError("not a dyadic rational: %r" % (p,))
+    return "(mkd (%d) (%d))" % (n, -k)
 
 
-def cr(p):           # real rational -> CQ
-    return "(%s, 0%%bigQ)" % q(p)
+def cr(p):           # real dyadic -> CQ
+    return "(%s, dy0)" % q(p)
 
 
 def cc(p):           # [re, im] -> CQ
@@ -90,7 +94,8 @@ def tol_of(scale, rel=1e-11):
     t = s * Fraction(rel).limit_denominator(10 ** 15)
     if t == 0:
         t = Fraction(1, 10 ** 30)
-    return q([t.numerator, t.denominator])
+    m = int(t * (1 << 160))              # rounded down to a multiple of 2^-160
+    return q([max(m, 1), 1 << 160])
 
 
 def parse_nat_lists(out):
@@ -105,8 +110,147 @@ def parse_nats(out):
     return [int(x) for x in re.findall(r'=\s*(\d+)(?:%nat)?\s*:\s*nat', out.replace("\n", " "))]
 
 
-def eval_many(ctx, named_bodies, workers=6, timeout=900):
-    """Evaluate several cases files concurrently; returns {name: stdout or None}."""
-    with ThreadPoolExecutor(max_workers=workers) as ex:
-        futs = {n: ex.submit(ctx.coq_eval, n, b, timeout) for n, b in named_bodies}
-        return {n: f.result() for n, f in futs.items()}
+def eval_many(ctx, named_bodies, workers=4, timeout=900):
+    """Evaluate several cases (name, body) inside Coq; returns {name: stdout or None}.
+
+    The cases are packed into at most `workers` files (one Coq Module per case; the Require header of the first
+    case is used for the file) that are compiled concurrently - coqc start-up dominates for small cases.  Every
+    case prints its results between two marker lines so that the output can be split again."""
+    if not named_bodies:
+        return {}
+    nb = max(1, min(workers, len(named_bodies)))
+    groups = [named_bodies[i::nb] for i in range(nb)]
+
+    def split_header(body):
+        lines = body.split("\n")
+        k = 0
+        while k < len(lines) and (lines[k].startswith("From ") or lines[k].startswith("Import ") or not lines[k].strip()):
+            k += 1
+        return "\n".join(lines[:k]), "\n".join(lines[k:])
+
+    def run(gi, group):
+        hdrs = []
+        parts = []
+        for n, b in group:
+            h, rest = split_header(b)
+            for l in h.split("\n"):
+                if l.strip() and l not in hdrs:
+                    hdrs.append(l)
+            parts.append('Module M_%s.\nGoal True. idtac "@@BEGIN %s". Abort.\n%s\nGoal True. idtac "@@END %s". Abort.\nEnd M_%s.\n'
+                         % (n, n, rest, n, n))
+        # Require lines first, Import lines after
+        hdrs.sort(key=lambda l: 0 if l.startswith("From ") else 1)
+        name = "%s_bundle%d" % (group[0][0], gi)
+        out = ctx.coq_eval(name, "\n".join(hdrs) + "\n" + "\n".join(parts), timeout)
+        res = {}
+        for n, _b in group:
+            if out is None:
+                res[n] = None
+                continue
+            m = re.search(r'@@BEGIN %s\b(.*?)@@END %s\b' % (re.escape(n), re.escape(n)), out, re.S)
+            res[n] = m.group(1) if m else None
+            if m is None:
+                ctx.problem("correspondence", "no output for case %s in bundle %s" % (n, name), out[-1500:])
+        return res
+
+    allres = {}
+    with ThreadPoolExecutor(max_workers=nb) as ex:
+        for r in ex.map(lambda a: run(*a), list(enumerate(groups))):
+            allres.update(r)
+    return allres
+
+
+POT_HEADER = HEADER.replace("AssemblyB.Model AssemblyB.Corr.", "AssemblyB.Model AssemblyB.PotModel AssemblyB.Corr.")
+
+
+def trips(ts):
+    return lst("(%s, %s, %s)" % (nat(t[0]), nat(t[1]), cr(t[2])) for t in ts)
+
+
+def potential_body(c):
+    """Cases file for one potential case of harness/bcommon.potential_case."""
+    sp = dict(c["space"])
+    sp["nmult"] = c["nmult"]
+    lines = [
+        "Definition g := %s." % geom(c["grid"]),
+        "Definition s := %s." % space(sp),
+        "Definition qd : list (@qpt CQ) := %s." % quad(c["quad"]),
+        "Definition kr : @kernel CQ := surr_kernel CQops %s." % surr(c["surr"]),
+        "Definition supp := %s." % nats(c["supp"]),
+        "Definition dt : list (trip CQ) := %s." % trips(c["dt"]),
+        "Definition pts : list (vec3 CQ) := %s." % lst(v3r(p) for p in c["points"]),
+        "Definition coefs : list (list CQ) := %s." % lst(clist(cf) for cf in c["coefs"]),
+        "Definition xfull (cf : list CQ) : nat -> CQ := %s." % (
+            "full_coeffs_dt CQops s supp dt (fun n => nth n cf cq0)" if c["requires_dt"]
+            else "full_coeffs CQops s supp (fun n => nth n cf cq0)"),
+    ]
+    if c["family"] == "scalar":
+        lines.append("Definition model := Eval vm_compute in (flat_map (fun cf => map (fun pt => "
+                     "scalar_potential CQops g s qd kr supp (xfull cf) pt) pts) coefs).")
+    else:
+        ik = "(cq_mul cq_i %s)" % cc(c["k"])
+        fn = "mfield_potential" if c["family"] == "mfield" else "efield_potential"
+        lines.append("Definition model := Eval vm_compute in (flat_map (fun cf => flat_map (fun pt => "
+                     "let v := %s CQops g s qd kr supp cq_dist %s (xfull cf) pt in [vx v; vy v; vz v]) pts) coefs)."
+                     % (fn, ik))
+    lines += ["Definition impl : list CQ := %s." % clist(c["impl"]),
+              "Eval vm_compute in (cmp_list %s model impl)." % tol_of(c["scale"]),
+              "Eval vm_compute in (count_nonzero model).", ""]
+    return POT_HEADER + "\n".join(lines)
+
+
+def judge_cases(ctx, cases, outs, prefix, what, per_case_evals):
+    """Common bookkeeping: one cases file per case printing [failing indices] and the non-zero count."""
+    for i, c in enumerate(cases):
+        out = outs["%s%d" % (prefix, i)]
+        ctx.corr["evaluations"] += per_case_evals(c)
+        if out is None:
+            ctx.corr["disagreements"] += 1
+            continue
+        fails = parse_nat_lists(out)
+        nz = parse_nats(out)
+        if len(fails) != 1 or len(nz) != 1:
+            ctx.problem("correspondence", "could not parse model evaluation of case " + c["name"], out[-1500:])
+            ctx.corr["disagreements"] += 1
+            continue
+        ctx.corr["distinct_nontrivial"] += nz[0]
+        if fails[0]:
+            ctx.corr["disagreements"] += len(fails[0])
+            ctx.problem("correspondence", "%s: bempp-cl differs from the model on %s at output positions %s"
+                        % (what, c["name"], fails[0][:8]))
+
+
+# ---- overlap the (quick) failing-input search with the correspondence -------------------------------------
+import threading
+
+
+def start_search(ctx, script, payload, timeout=3000):
+    """Start the quick-strength search harness in the background (it is a separate OS process); `finish_search`
+    returns its result.  Only wall time changes: the search is always run and always judged."""
+    box = {}
+
+    def work():
+        box["res"] = ctx.run_impl(script, payload, timeout=timeout)
+    t = threading.Thread(target=work, daemon=True)
+    t.start()
+    ctx._bg_search = (t, box, dict(payload))
+
+
+def finish_search(ctx, script, payload, timeout=3000):
+    bg = getattr(ctx, "_bg_search", None)
+    if bg is not None:
+        t, box, started = bg
+        t.join()
+        ctx._bg_search = None
+        if started == payload and box.get("res") is not None:
+            return box["res"]
+    return ctx.run_impl(script, payload, timeout=timeout)
+
+
+def report_search(ctx, res):
+    if res is None:
+        return
+    ctx.search_info["evaluations"] = res.get("evaluations", 0)
+    ctx.search_info["notes"].append({"worst": res.get("worst", {}), "wall_s": round(res.get("wall", 0), 1)})
+    for f in res.get("failures", []):
+        ctx.failure(f["signature"], f["what"], f["data"])
